@@ -142,6 +142,10 @@ def npv_is_discounted_sum(discount_rate_tenths, cashflow_series, discount_initia
     except (ZeroDivisionError, OverflowError):
         m.inconclusive('contract:npv', 'reference')
         return True
+    if any(v != v for v in cashflow_series) or want != want:
+        # a cash-flow series that contains NaN (a run whose energy came out NaN) has no NPV to compare: not judged
+        m.note('contract:npv-series-with-nan')
+        return True
     scale = math.fsum(abs(v) for v in cashflow_series) or 1.0
     m.check('contract:npv', abs(float(result) - want) <= 1e-9 * scale, mechanism='C04/contract-npv', got=float(result),
             want=want, rate=discount_rate_tenths, excel=bool(discount_initial_year_cashflow))
